@@ -1,6 +1,6 @@
 """C07 — EPA returns the minimum translation vector whenever it reports success (structural clauses)."""
 from ..core.report import DOMAIN_D
-from ..rules import eager, epa, mink, buffers, loops
+from ..rules import eager, epa, mink, buffers, loops, degree
 from .common import e1
 
 MODS = ["distance3d.epa"]
@@ -11,7 +11,8 @@ def run(idx, rep, tier):
         "Static rules over distance3d/epa.py: no read of a NumPy view after its source row was overwritten (R-ALIAS, "
         "engine E1), every face passes normal computation and winding repair before it is selectable and the repair is a "
         "real swap (R-WINDING), Minkowski pairing of the support queries (R-MINK), capacity checks dominate the stores "
-        "(R-GUARDSTORE), the success path returns n*dot(new_point, n) under the convergence test of a loop capped by "
+        "(R-GUARDSTORE), vertex rows and the normal row of a face are never confused (R-FACEROLE: dimensional inference with rows 0-2 = "
+        "length, row 3 = unit normal), the success path returns n*dot(new_point, n) under the convergence test of a loop capped by "
         "max_iter (R-MTV), loop discipline (R-LOOP). Minimality of the vector and the residual gap are not decided.")
     rep.assumptions = DOMAIN_D + ["the simplex handed over by GJK has four affinely independent points (any winding)"]
     it = e1(idx)
@@ -27,3 +28,11 @@ def run(idx, rep, tier):
     mink.r_mink(idx, rep, modules=["distance3d.epa", "distance3d.minkowski"], floor=3)
     buffers.r_guardstore(idx, rep, modules=set(MODS), floor=3)
     loops.r_loop(idx, rep, MODS, floor=5, allowed=("CAP", "STRUCT"))
+    # R-FACEROLE: rows 0-2 of a face are vertices (degree 1), row 3 the unit normal (degree 0) wherever a face is read or written
+    dg = degree.r_degree(idx, rep, modules=MODS, rule="R-FACEROLE", floor=5, face_arrays=degree.EPA_FACES)
+    from fractions import Fraction
+    f = idx.func("distance3d.epa::epa")
+    res = dg.analyse(f)
+    ok = isinstance(res, tuple) and len(res) == 3 and res[0] == Fraction(1)
+    rep.check(ok, "R-FACEROLE", f.key + "|returned vector is a length (normal * distance)", f.where,
+              "every returned translation vector must have length degree 1 (unit normal times a distance); inferred degrees %s" % (res,))
